@@ -269,9 +269,9 @@ var propNotes = map[string]string{
 	"C08": "covered: charstring obfuscation, eexec writer cipher and buffering invariant, stem hint encoding, number formats (C20). Not covered: template text, PFB framing lengths, Length1/2/3, the lead-byte search termination, writeEncoding / isStandardEncoding (known question: .notdef at a standard code), hex writer line structure.",
 	"C10": "'writing succeeds without error' depends on text/template and Name.PS rejecting non-regular names (a glyph named << is accepted by the reader and refused by the writer: not claimed); re-read equalities go through text/template and the interpreter and are not expressible. Covered: no panic in any writer function for fonts satisfying fontWF, type1.Read establishes fontWF, coordinates within 1/214 (shared with C20).",
 	"C11": "'never counting past N+1' on the error-handler path and the two-run equality 'same state as with no budget' are not claimed; Go stack depth is not a value a contract can see; size limits of array/string/dict are covered by C01's make obligations only.",
-	"C12": "no ghost input tape: equality of complete results under two delivery schedules is not stated; covered is the refill contract every schedule must go through. Split-Execute equivalence, seekable vs non-seekable peek in type1.Read, afm.Read (bufio.Scanner, trusted) not under contract.",
+	"C12": "covered: the clear-text byte layer (refill, readByteRaw, readByte, Next, Peek) over the ghost input tape for every delivery schedule. Not covered: eexec mode, composition with the token layer beyond C04's per-token contracts, split-Execute equivalence, seekable vs non-seekable peek in type1.Read, afm.Read (bufio.Scanner, trusted), pfb (see C14).",
 	"C13": "truncation-never-yields-partial-result (depends on definefont being last in the file) and the upper reader layers (ScanToken, Execute, type1.Read, afm.Read) are not under the fault contract; fmt.Fprintf and text/template are trusted to perform their output through w.Write and to return the first write error.",
-	"C14": "(*pfbReader).Read is proved safe with its representation invariant and byte counts; the full functional contract 'output is the hex/verbatim rendering of the segments' (ghost output tape) is not stated; hexEncode is proved exactly.",
+	"C14": "the per-iteration step relation over the ghost tape is the specification; it is not folded into one closed formula for the whole output, and the error results (short segment, truncated end marker) are covered by safety and C13 only.",
 	"C16": "table contents (glyph list, AGLFN, Zapf Dingbats, compat expansions) are data; decision order of the lookups, '.'-suffix and '_' splitting (strings package), final scalar-range test of the u form, FromUnicode and the name/rune round trip are not under contract.",
 	"C17": "encodeCharstrings' map loop is not claimed (inner loops in the body; only the own-key frame is proved); text/template's sorted map iteration, sort.Slice / slices.Sort producing a function of the key set, absence of time/rand/address dependence (not scanned) are trusted; bForall over a dictionary is order dependent by PLRM and outside the anchored files.",
 	"C18": "the data-race half (all interleavings) is outside a sequential verifier; the lock discipline of names.glyphMap and a module-wide scan that no package-level variable is written after init are not under contract (only the effectively-constant analysis of the globals actually read by verified functions).",
